@@ -58,7 +58,9 @@ def fast_appends(cx: Cx, ob: Ob, fn, s) -> None:
                         covered[side].add(f_)
         ob.site(f"{where(fn, ev.line)} {fn.qualname}", f"direct append to the accumulator's records; names asked about: {sorted(covered['curie'] | covered['uri'])}")
         missing = sorted((set(CURIE_SIDE) - covered["curie"]) | (set(URI_SIDE) - covered["uri"]))
-        if missing:
+        if missing and not (covered["curie"] | covered["uri"]):
+            ob.undecide(f"{fn.name} appends records directly (bypassing add_record) under a test that does not ask the accumulator's own tables (a local record of the names seen, ..): that the test implies there is nothing to merge is not decided")
+        elif missing:
             ob.violate(
                 fn.qualname,
                 where(fn, ev.line),
